@@ -144,7 +144,22 @@ func lifeFamily(id, tier string, p map[string]bool, tweak func(kind string, o *L
 	if tweak != nil {
 		tweak("2models", &e)
 	}
-	return []*engine.Scenario{LifeScenario(a), LifeScenario(b), LifeScenario(c), LifeScenario(dd), LifeScenario(e)}
+	// f: every operation of the alphabet enabled at once, shallow, from four rich roots (completed; completed and renewed
+	// with top-up; migration pending; collateral debt recorded)
+	f := baseLife(id, tier, p)
+	f.ID = id + "-life-all"
+	f.Roots = []string{"R1", "R2", "R3", "R5"}
+	f.Update, f.ForcePush, f.Cancel, f.Migrate, f.Renew, f.Claim, f.Terminate = true, true, true, true, true, true, true
+	f.Drain, f.RemoveCap, f.Pending, f.BadBases = true, true, true, true
+	f.RenewDur = []uint64{3600, 7200}
+	f.Depth = 3
+	if tier == "thorough" {
+		f.Depth = 5
+	}
+	if tweak != nil {
+		tweak("all", &f)
+	}
+	return []*engine.Scenario{LifeScenario(a), LifeScenario(b), LifeScenario(c), LifeScenario(dd), LifeScenario(e), LifeScenario(f)}
 }
 
 func init() {
